@@ -320,7 +320,7 @@ func c19R5(c *kit.Ctx, m *c19Model) {
 			o.Undecided("expected one store of the byte count into response data[0] in %s, found %d", arm.label(), nStores)
 			continue
 		}
-		qt := reqB.Term(q.def.Lhs[0])
+		qt := reqB.Term(q.lhs)
 		atoms := fLin.Atoms()
 		if qt == nil || len(atoms) != 1 || atoms[0].Key() != qt.Key() {
 			o.Undecided("the byte count `%s` is not a function of the quantity alone (%s)", fText, fLin.Pretty())
